@@ -246,6 +246,52 @@ theorem flushToSep_aligned (S : Sem V) (front : Bool) (f : Tok) (hf : (f.ty == T
       · simp only [hc, Bool.false_eq_true, if_false]
         exact ih _ args h hargs
 
+/-- when the innermost bracket on `opft` is the function separator, an argument separator is the function's own -/
+theorem argInParen_sep (f : Tok) (hf : (f.ty == TType.function) = true) (opf' : List Tok) (fs' : List Fr) :
+    ∀ (opft : List Tok), aligned opft (f :: opf') (.F :: fs') = true → argInParen f opft = false := by
+  intro opft
+  induction opft with
+  | nil => intro h; simp [aligned] at h
+  | cons top rest ih =>
+    intro h
+    unfold argInParen
+    by_cases h1 : (top.ty == TType.function) = true
+    · obtain ⟨_, _, ho, _, _⟩ := aligned_fn h1 h
+      have hb : isBeginParen top = false := by
+        have := beq_iff_eq.mp h1; simp [isBeginParen, this]
+      have he : top = f := (List.cons.inj ho).1.symm
+      rw [he] at hb
+      simp [hb, he]
+    · have h1' : (top.ty == TType.function) = false := by simpa using h1
+      by_cases h2 : isBeginParen top = true
+      · obtain ⟨_, hfs, _⟩ := aligned_paren h2 h; cases hfs
+      · have h2' : isBeginParen top = false := by simpa using h2
+        rw [aligned_op rest _ _ h1' h2'] at h
+        have hne : top ≠ f := by
+          intro e; rw [e] at h1'; rw [hf] at h1'; cases h1'
+        simp [h2', hne, ih h]
+
+/-- when the innermost bracket on `opft` is a parenthesis, the separator is skipped -/
+theorem argInParen_paren (f : Tok) (hf : (f.ty == TType.function) = true) (opf : List Tok) (fs' : List Fr) :
+    ∀ (opft : List Tok), aligned opft opf (.P :: fs') = true → argInParen f opft = true := by
+  intro opft
+  induction opft with
+  | nil => intro h; simp [aligned] at h
+  | cons top rest ih =>
+    intro h
+    unfold argInParen
+    by_cases h2 : isBeginParen top = true
+    · simp [h2]
+    · have h2' : isBeginParen top = false := by simpa using h2
+      have h1' : (top.ty == TType.function) = false := by
+        cases hq : (top.ty == TType.function) with
+        | false => rfl
+        | true => obtain ⟨_, _, _, hfs, _⟩ := aligned_fn hq h; cases hfs
+      rw [aligned_op rest _ _ h1' h2'] at h
+      have hne : top ≠ f := by
+        intro e; rw [e] at h1'; rw [hf] at h1'; cases h1'
+      simp [h2', hne, ih h]
+
 /-- effect of one token on the frames seen by `parseToken` -/
 def frAfter (fs : List Fr) (t : Tok) : List Fr :=
   if isBeginParen t then .P :: fs else if isEndParen t then fs.tail else fs
@@ -649,6 +695,7 @@ theorem inFuncRest_inv (S : Sem V) (st : St V) (f t n : Tok) (opfRest : List Tok
         simp only [h.2.2.2, if_true, hcur, Option.isSome_none, Bool.false_eq_true, if_false]
         rw [hopf, hinner] at ha1
         have hfl := flushToSep_aligned S true f hf opfRest fs opft1 opfd1 st.args ha1 (hI.args_ne hopf)
+        simp only [argInParen_sep f hf opfRest fs opft1 ha1, Bool.false_eq_true, if_false]
         cases hflr : flushToSep S true f opft1 opfd1 st.args with
         | panic => exact absurd hflr hfl.1
         | err => exact ⟨by simp, by intro _ h; cases h⟩
@@ -794,7 +841,7 @@ theorem step_inv (S : Sem V) (st : St V) (t n : Tok) (inner inner' : List Fr) (o
         simp only [Option.some.injEq, Prod.mk.injEq] at hn
         obtain ⟨h1, h2⟩ := hn
         subst h1; subst h2
-        simp only [h.2, if_true, ha1, ha2, Bool.false_eq_true, if_false]
+        simp only [h.2, if_true, ha1, ha2, Bool.false_eq_true, if_false, Bool.false_and]
         refine ⟨by simp, ?_⟩
         intro st' he
         simp only [Outcome.ok.injEq] at he
@@ -878,7 +925,7 @@ theorem step_inv (S : Sem V) (st : St V) (t n : Tok) (inner inner' : List Fr) (o
       simp only [Option.some.injEq, Prod.mk.injEq] at hn
       obtain ⟨h1, h2⟩ := hn
       subst h1; subst h2
-      simp only [hs, if_true, ha1, ha2, Bool.false_eq_true, if_false]
+      simp only [hs, if_true, ha1, ha2, Bool.false_eq_true, if_false, Bool.false_and]
       refine ⟨by simp, ?_⟩
       intro st' he
       simp only [Outcome.ok.injEq] at he
